@@ -54,4 +54,19 @@ PROPS = {
   ],
   "assumptions": ["Codec.Sound Z (zstd lossless + magic)", "Codec.Lossless L (lz4)", "Covers content regions (SEEK_DATA/SEEK_HOLE contract)"],
  },
+ "C13": {
+  "seed": 13,
+  "streams": [{"kind": "rust", "name": "c13"}],
+  "trusted_base": [
+    "hand-written Lean labelled transition system of Transferrer::create's hard-link hand-off (src/sync/transfer.rs) at mutex granularity, tied to the code by polling the real create() futures (hook H3) over a mock Transport in every order and comparing every poll with the model's `poll` macro-step",
+    "tokio 1.47.1 Notify is MODELLED, not verified: notify_waiters() counter, Notified snapshots it at creation and completes iff it changed (src/sync/notify.rs l.565-575, 743-760, 1132, 1249)",
+    "thread-level schedules are covered by the theorems over micro-steps; on the real code they are only sampled (sy -H -j1..8 on generated trees, wall-clock bound 90 s, a timeout is a hang only for the deterministic A11 scenario)",
+    "the mock Transport's file table stands for the file system at the mock level (copy = fresh inode, link = share inode); real inode classes are compared at binary level",
+    "tokio Semaphore / spawn / join_all of SyncEngine::sync are not modelled: every task is assumed to be polled again after a wake-up (fair executor)",
+  ],
+  "assumptions": ["cfg.variant = repaired for no_stuck / every_run_completes / owner_failure_surfaces (fix-c13-hardlink-hang)",
+                  "WF cfg: files sharing a source inode are all hard-link candidates (nlink > 1)",
+                  "Clean cfg for link_structure_clean (link_structure itself needs no such assumption)",
+                  "updates below the 10 MiB delta threshold for link_structure_partial"],
+ },
 }
